@@ -22,7 +22,7 @@ def configs(tier):
           cfg("BIRECTANGLE", "COAXIAL", loads={"kind": "heating", "scale": 25000, "seed": 2}),
           cfg("BIZONEDRECTANGLE", flow=("SYSTEM", 3.0)),
           cfg("ROWWISE", loads={"kind": "balanced", "scale": 60000, "seed": 4}),
-          cfg("BIRECTANGLECONSTRAINED", "DOUBLEUTUBESERIES")]
+          cfg("BIRECTANGLECONSTRAINED", "DOUBLEUTUBESERIES"), steep_cfg(1950.0, 3), steep_cfg(2150.0, 3)]
     if tier != "quick":
         for g in ("NEARSQUARE", "RECTANGLE", "BIRECTANGLE", "BIZONEDRECTANGLE", "BIRECTANGLECONSTRAINED", "ROWWISE"):
             for p in ("SINGLEUTUBE", "DOUBLEUTUBEPARALLEL", "DOUBLEUTUBESERIES", "COAXIAL"):
